@@ -134,6 +134,26 @@ theorem gobDecode_eq (z : Dec) (buf : List Nat)
       else if g.tail = 1 then some (setPrec z' z.prec) else some z' :=
   GenGob.gobDecode_eq z buf hB hE hL hT
 
+/-- **gobEncode_eq.** `GobEncode` as regenerated from decimal_marsh.go writes exactly the quantities of the model's
+    `gobEncode`: the buffer size (6, or 6 + 4 + 8·n with n = min(len, ⌈prec/19⌉) words for a finite value), the version
+    byte, the attribute byte (`mode&7 << 5 | (acc+1)&3 << 3 | form&3 << 1 | sign` in byte arithmetic — all 108 attribute
+    combinations), the precision field, and for finite values the exponent as uint32 and the index of the first
+    mantissa word encoded. -/
+theorem gobEncode_eq (x : Dec) (hacc : x.acc = -1 ∨ x.acc = 0 ∨ x.acc = 1) (hprec : x.prec < 4294967296)
+    (hlen : x.len < 1099511627776) :
+    Gen.Facts.GobEncode false x.form.toNat x.prec x.len x.mode.toNat x.acc x.neg x.exp =
+      { outcome := 0, tail := 0,
+        mtrace := [(1, [if x.form = .finite then 6 + (4 + (GenGob.nWords x.prec x.len : Int) * 8) else 6]), (2, [1]),
+            (3, [(GenGob.hdrOf x.mode x.form x.acc x.neg : Int)]), (4, [(x.prec : Int)])] ++
+          (if x.form = .finite then [(5, [((x.exp % 4294967296).toNat : Int)]), (6, [(x.len : Int) - (GenGob.nWords x.prec x.len : Int)])] else []) } :=
+  GenGob.gobEncode_eq x hacc hprec hlen
+
+/-- the attribute byte and the word count used above are those of the model's `gobEncode` (definitional) -/
+theorem gobEncode_header (x : Dec) :
+    (gobEncode x).take 2 = [1, GenGob.hdrOf x.mode x.form x.acc x.neg] := by
+  unfold gobEncode GenGob.hdrOf
+  by_cases hf : x.form == .finite <;> simp [hf]
+
 /-! ### `Sqrt`: prologue, NaN, special operands, exponent parity and halving -/
 
 /-- `Sqrt` as regenerated from decimal_sqrt.go, with `x.MantExp(z)` instantiated by what it does: the ErrNaN panic
@@ -221,6 +241,8 @@ private def same (a b : Except String WDec) : Bool := toString (repr a) == toStr
 #print axioms fma_eq
 #print axioms sqrt_eq
 #print axioms gobDecode_eq
+#print axioms gobEncode_eq
+#print axioms gobEncode_header
 #print axioms setInt64_args
 #print axioms setUint64_args
 #print axioms newDecimal_args
